@@ -44,6 +44,13 @@ def gen(tier, seed, rnd, kind):
                     # a directed k-NN graph that is not strongly connected (clusters 1000 sigma apart plus outliers, k = 3, no
                     # connectivity check): sources reach different vertex sets, unreachable pairs keep the sentinel
                     cases[-1].update(data="clusters", nc=2, gap=1000, ratio=0.5, outliers=3, k=3, N=rnd.choice([23, 40, 61]))
+    # one execution per stage at a size beyond any "small problem" switch (e.g. `#pragma omp parallel for if (N > 1000)`)
+    if kind in ("tsan", "prod"):
+        for stage in STAGES:
+            if stage == "cli" or (stage == "hlle" and not thorough):
+                continue
+            cases.append(dict(mode="stage", ctx=stage, stage=stage, threads=4, data="swiss", N=1100, D=3, k=8 if stage != "hlle" else 12, td=2,
+                              dseed=rnd.randrange(1 << 30), delay_seed=rnd.randrange(1 << 30), delays=1, width=2.0, timeout=1800, ticks=0))
     return cases
 
 
